@@ -58,7 +58,17 @@ def val(name, macro, covers=(1,)):
             'rungs': {'quick': [{'bound': 'all field values symbolic; field lengths 0..3 plus the boundary lengths (1, 64, 255..257, 1023..1025, 32)', 'timeout': 200}], 'thorough': [{'bound': 'as quick', 'timeout': 400}]}}
 
 
+def comp(name, macro, covers=(1,), jobs=16, tq=250):
+    return {'name': 'v_' + name, 'src': 'C11/h_value.cpp', 'entry': 'h_value', 'repo_srcs': srcsets.SERDE, 'defines': [macro], 'covers': list(covers), 'jobs': jobs,
+            'obligations': ['%s as a whole (value-first): estimateSize(x) == |encode(x)|; decode(encode(x)) succeeds, consumes exactly the encoding, equals x field by field, and re-encodes to the same bytes' % name],
+            'rungs': {'quick': [{'defines': ['OUTS=1'], 'bound': 'scalar fields symbolic (source amount: all int64; signature index, altchain id: 16 bits; output amounts: 8 bits; heights, timestamps, nonces, difficulty, hashes: full width; network byte present or absent); 0..1 outputs, layers and context headers; byte-vector fields of length 0..1 plus signature 72 / public key 88; addresses default; the embedded BTC transaction concrete (its double SHA-256 is the Merkle subject on decode)', 'timeout': tq}],
+                      'thorough': [{'defines': ['OUTS=2'], 'bound': 'as quick with 0..2 outputs, layers and context headers', 'timeout': 1500}]}}
+
+
+COMPOSITE_HARNESSES = [comp('vbktx', 'V_VBKTX'), comp('vbkpoptx', 'V_POPTX'), comp('atv', 'V_ATV'), comp('vtb', 'V_VTB'), comp('popdata', 'V_POPDATA', covers=(1, 2))]
+COMPOSITE_HARNESSES[-1]['rungs'] = {'quick': [{'bound': 'PopData with 0..2 context VBK headers (all fields symbolic), 0..2 VTBs and 0..2 ATVs whose embedded transactions keep one symbolic field each (they are decided on their own by v_vbktx .. v_vtb)', 'timeout': 250}],
+                                    'thorough': [{'bound': 'as quick', 'timeout': 600}]}
 VALUE_HARNESSES = [val('keystone', 'V_KEYSTONE'), val('ctxinfo', 'V_CTX'), val('authctx', 'V_AUTHCTX'), val('pubdata', 'V_PUBDATA', covers=(1, 2)), val('altblock', 'V_ALTBLOCK')]
-HARNESSES = PRIM_HARNESSES + list(ENTITY_HARNESSES) + VALUE_HARNESSES
+HARNESSES = PRIM_HARNESSES + list(ENTITY_HARNESSES) + VALUE_HARNESSES + COMPOSITE_HARNESSES
 EXPLANATION = 'Byte-first exploration: the real decoders/encoders/estimateSize of each entity run symbolically on every byte string up to the stated length.'
-ASSUMPTIONS = ['Address/Output: a successful decode needs a 30-character text with a valid SHA-256 checksum, unreachable for short arbitrary strings; only the rejecting paths (incl. base58/base59 encoding of arbitrary bytes) are explored', 'ids and hashes (SHA-256 / vBlake / progpow) are not encoded', 'ATV/VTB/VbkTx/VbkPopTx/PopData as wholes are outside (their smallest valid encodings are hundreds of bytes)']
+ASSUMPTIONS = ['Address/Output: a successful decode needs a 30-character text with a valid SHA-256 checksum, unreachable for short arbitrary strings; only the rejecting paths (incl. base58/base59 encoding of arbitrary bytes) are explored', 'ids and hashes (SHA-256 / vBlake / progpow) are not encoded', 'ATV/VTB/VbkTx/VbkPopTx/PopData as wholes are decided value-first only (v_vbktx .. v_popdata): arbitrary BYTE strings of their size are outside']
